@@ -274,7 +274,10 @@ func init() {
 			}
 			return accept(st, v, string(digits), "", false)
 		}})
-	synNames = []string{"E", "bang", "cjk", "Q", "CT", "at", "zh", "Z"}
+	// (<k>)#: a syntax that opens like a parenthesised operand of the language itself
+	addSyn(&synDef{name: "paren", pat: `\((\d+)\)#`, find: regexp.MustCompile(`\(\d+\)#`),
+		text: func(k, j int64) string { return "(" + itoa(k) + ")#" }, groups: reGroups})
+	synNames = []string{"E", "bang", "cjk", "Q", "CT", "at", "zh", "Z", "paren"}
 
 	// dice analogues: <n>X<m> behaves like the built-in <n>d<m> (value and text supplied by the handler)
 	addSyn(&synDef{name: "X", pat: `(\d+)X(\d+)`, find: regexp.MustCompile(`\d+X\d+`), hasJ: true,
